@@ -31,24 +31,33 @@ CHECKS = {
              "and origin are proved on multi-statement templates whose origin and gap size are symbolic (all origins, all distances), "
              "against image semantics computed from the emitted bytes.  ORG placement shapes enumerated.  Refuted cells are known findings.",
              "DESIGN 4 C02, 12"),
-    "C03": C("other", "Branch / PCR templates with symbolic origin and symbolic distance (RMB n, digits symbolic): z3 proves "
-             "(address + length + decoded displacement) mod 65536 == target (+constant) on every path, and that out-of-range short branches "
-             "are rejected.  Unbounded in distance for one PCR statement; 2-3 mutually dependent PCR statements with symbolic gaps are a "
-             "bounded stand-in.", "DESIGN 4 C03, 12", TECHB),
+    "C03": C("other", "(1) Function contracts over an ABSTRACT statement list of arbitrary length (fields as arrays, prefix-sum ghosts): "
+             "Statement.fix_addresses for branches (both summing loops with invariants) and label,PCR, determine_pcr_relative_sizes "
+             "(progress, size accounting, 8-bit-chosen => fits, via an inductively proved prefix-sum lemma): any number of statements "
+             "between source and target.  (2) Whole-pipeline templates with symbolic origin and symbolic distance (RMB n): "
+             "(address + length + decoded displacement) mod 65536 == target, out-of-range short branches rejected.  2-3 mutually "
+             "dependent PCR statements with symbolic gaps are a bounded stand-in.", "DESIGN 4 C03, 12", TECHB),
     "C04": C("other", "Operand position x term kinds x operator cells with symbolic literal digits, symbolic EQU values and symbolic label addresses; "
              "the oracle is exprsem.evaluate.  Products / quotients keep one side enumerated (0..9) to stay linear.  Most cells are refuted on "
              "the tree (known findings); the discharged ones are proved for all values.", "DESIGN 4 C04, 12"),
     "C05": C("other", "FCB / FDB with symbolic digits (lists up to 3 elements unbounded in value; longer lists and FCC strings with symbolic "
              "characters are bounded stand-ins), RMB size for symbolic n, directives that emit nothing.", "DESIGN 4 C05, 12", TECHB),
-    "C06": C("other", "BOUNDED stand-in for the composed round trip: file count <= 3, data lengths enumerated (boundary lengths quick, every length "
+    "C06": C("other", "Unbounded contracts on the reader's leaf functions over a buffer of ANY length and content (z3 arrays): skip_to_sequence "
+             "returns the least match or -1 (quantified loop invariant, early return inside the cut loop), read_word, read_coco_file_name.  "
+             "BOUNDED stand-in for the composed round trip: file count <= 3, data lengths enumerated (boundary lengths quick, every length "
              "0..765 thorough), contents / addresses / name characters symbolic; reader on foreign streams with other leader and gap "
              "lengths.  The writer side is proved unboundedly under C14.", "DESIGN 4 C06, 12", TECHB),
-    "C07": C("other", "Unbounded: geometry and length arithmetic contracts for all granules / all lengths.  BOUNDED stand-in for layout and "
-             "read-back: enumerated data lengths x fill orders x file kinds x pre-existing files with symbolic contents, tool reader and "
-             "independent reader (specs/diskbasic).", "DESIGN 4 C07, 12", TECHB),
-    "C08": C("other", "Unbounded: seek_granule geometry (in image, disjoint, off the directory track), length identity and ranges for every stream "
-             "length.  BOUNDED: whole-image consistency (independent Disk BASIC checker incl. frame against a fresh image) on the "
-             "enumerated family of C07.", "DESIGN 4 C08, 12", TECHB),
+    "C07": C("other", "Unbounded (writer side): geometry and length arithmetic for all granules / lengths; write_bytes_to_buffer, write_dir_entry, "
+             "preamble / postamble read + write, write_to_fat (chains of any length), write_to_granules (any length, any chain of distinct "
+             "granules, any contents: stream in chain order, by recursion through its own contract) and the add_file composition.  "
+             "BOUNDED stand-in for read-back (the reader): enumerated data lengths x fill orders x file kinds x pre-existing files with "
+             "symbolic contents, tool reader and independent reader (specs/diskbasic).", "DESIGN 4 C07, 12", TECHB),
+    "C08": C("other", "Unbounded, function by function with the image as a z3 array: seek_granule geometry, length identity, write_bytes_to_buffer "
+             "(loop invariant), write_dir_entry layout, write_to_fat for chains of ANY length (injectivity ghost), write_to_granules for ANY "
+             "data length / chain / contents (stream in chain order + frame; the trailer-straddle case is excluded by precondition and is a "
+             "known finding), and DiskFile.add_file as the per-file inductive step (allocation while-loop invariant + variant, callee "
+             "pre-conditions at each call site, FAT chain, frame, directory slot).  BOUNDED: whole-image consistency with an independent "
+             "Disk BASIC checker on the enumerated family of C07.", "DESIGN 4 C08, 12", TECHB),
     "C09": C("other", "BOUNDED stand-in for the history quantifier: open/add/save/re-open sessions through VirtualFile on the ghost filesystem "
              "(up to 4 additions, boundary lengths, symbolic contents for cassette and short disk files), CLI --append sequences, and kind "
              "recognition of tool-written images of every size class.  Per-step contracts come from C14 / C06 / C07 / C08.",
@@ -73,7 +82,8 @@ CHECKS = {
              "All obligations discharged on the tree; natively the clauses are the checksum-verifying recogniser specs/tape.parse_stream.",
              "DESIGN 4 C14, 12"),
     "C15": C("other", "Unbounded: find_empty_granule / find_empty_directory_entry for EVERY FAT / directory state (68 / 72 symbolic bytes), the "
-             "fill-order table lemma, granules-needed minimality for every length.  BOUNDED: granules used per write on the C07 family, "
+             "fill-order table lemma, granules-needed minimality for every length, and add_file's allocation loop (exactly `needed` "
+             "granules, all free before, distinct; raises only on exhaustion).  BOUNDED: granules used per write on the C07 family, "
              "three concrete empty-to-full histories.", "DESIGN 4 C15, 12", TECHB),
     "C16": C("other", "file_util.main executed by the AST interpreter on the ghost filesystem: every source kind x target kind x file set x --files "
              "selection (upper / lower / mixed case), conversion chains, --to_bin, pre-existing targets; results parsed by the independent "
